@@ -29,3 +29,13 @@ Print Assumptions C05_view_eq_cache.
 Theorem C05_handlers_flush : forallb kind_ok gen_handlers = true.
 Proof. vm_compute. reflexivity. Qed.
 Print Assumptions C05_handlers_flush.
+
+(* Without the guard the statement is false of the faithful model: a request that writes a
+   container's resources and then fails (RNoFlush) leaves that live container pending -- its cache
+   differs from what the runtime has (known finding K5; observed on the implementation for a failing
+   UpdateContainer that had already re-pinned other containers). *)
+Theorem C05_view_eq_cache_refuted :
+  exists rs, let s := fold_left exec rs f0 in
+    bool_decide (pend s ⊆ stopped_of rs) = false /\ bool_decide (dirty s = ∅) = false.
+Proof. exists [ {| r_kind := RNoFlush; r_writes := [1%nat] |} ]. vm_compute. split; reflexivity. Qed.
+Print Assumptions C05_view_eq_cache_refuted.
